@@ -33,6 +33,7 @@ contract(SH + "shave_bound", types=SB_T, result="bool", props=["C10", "C16", "C1
     ],
     tags={"C10": ["C10"], "C10.wake": ["C10", "C01", "C02", "C08"], "C10.preserve": ["C10", "C02", "C03"], "C10.justified": ["C10", "C02"], "C17": ["C17"], "wf": ["C16", "C19"]}, arities=[])
 
+SZ = lambda S: f"({S}[{T0}, d, MAX] - {S}[{T0}, d, MIN])"
 SH_INV = [
     ("C10.top", f"stacks_top[0] == {T0}"),
     ("C10.levels", f"forall(l, 0, {T0}, lvl_same({SS}, {SS0}, l, D))"),
@@ -49,11 +50,17 @@ SH_INV = [
     ("C10.preserve", f"implies(sol() and in_box({SS0}, {T0}), in_box({SS}, {T0}))"),
     ("C10.unbound", f"implies(not has_shaved, exists(d, 0, D, {SS}[{T0}, d, MIN] < {SS}[{T0}, d, MAX]))"),
 ]
-contract(SH + "shaving_consistency_algorithm", types=ENGINE_T, props=["C10", "C16", "C17", "C19", "C01", "C02", "C03", "C07", "C08"],
+contract(SH + "shaving_consistency_algorithm", types=ENGINE_T, props=["C10", "C16", "C17", "C19", "C01", "C02", "C03", "C04", "C07", "C08"],
     requires=WF_STATIC + WF_DYN + ["D >= 1"], ghost={"sigma": "int[D]"},
     call_ghosts={"bound_consistency_algorithm": {"sigma": "sigma"}, "shave_bound": {"sigma": "sigma"}},
     modifies=["statistics", "shr_domains_stack", "not_entailed_propagators_stack", "dom_update_stack", "stacks_top", "triggered_propagators"],
-    loops={1: dict(fingerprint="while start_idx < shr_domains_nb", invariant=SH_INV)},
+    loops={1: dict(fingerprint="while start_idx < shr_domains_nb", invariant=SH_INV,
+                   # C04: lexicographic measure (domains still to be scanned, bounds still to be tried on the current one, total size of the box)
+                   decreases=["D - start_idx", "2 - bound", f"sum(d, 0, D, {SZ(SS)})"],
+                   hints=[f"lemma_sum_zero(d, 0, D, {SZ(SS)})"],
+                   step_hints=[f"lemma_sum_le(d, 0, D, {SZ(SS)}, {SZ('it0(' + SS + ')')})"],
+                   step_ensures=[("C04.shrunk", f"forall(d, 0, D, it0({SS})[{T0}, d, MIN] <= {SS}[{T0}, d, MIN] and {SS}[{T0}, d, MAX] <= it0({SS})[{T0}, d, MAX] and {SS}[{T0}, d, MIN] <= {SS}[{T0}, d, MAX])"),
+                                 ("C04.progress", f"start_idx >= it0(start_idx) and implies(has_shaved, 0 <= start_idx and start_idx < D and {SS}[{T0}, start_idx, MAX] - {SS}[{T0}, start_idx, MIN] < it0({SS})[{T0}, start_idx, MAX] - it0({SS})[{T0}, start_idx, MIN])")])},
     ensures=CA_FRAME_IFACE + [CA_SHRINK, CA_STATUS, CA_BOUND, CA_UNBOUND, CA_PRESERVE,
         ("C17.solver_stats", SOLVER_STATS_SAME),
         ("C17.backtracks_mono", f"statistics[{BTN}] >= old(statistics)[{BTN}]"),
@@ -61,4 +68,4 @@ contract(SH + "shaving_consistency_algorithm", types=ENGINE_T, props=["C10", "C1
         ("C17.passes", "statistics[STATS_IDX_ALG_BC_WITH_SHAVING_NB] == old(statistics)[STATS_IDX_ALG_BC_WITH_SHAVING_NB] + 1"),
         ("C09.records", f"forall(l, 0, {T0}, {U_}[l, 0] == {U0}[l, 0] and {U_}[l, 1] == {U0}[l, 1])"),
     ],
-    tags={"C10": ["C10"], "C08": ["C08", "C10"], "C07": ["C07"], "C01": ["C01"], "C02": ["C02", "C10", "C03"], "C17": ["C17"], "C09": ["C09"], "wf": ["C16", "C19"]}, arities=[])
+    tags={"C10": ["C10"], "C08": ["C08", "C10"], "C07": ["C07"], "C01": ["C01"], "C02": ["C02", "C10", "C03"], "C17": ["C17"], "C09": ["C09"], "C04": ["C04"], "wf": ["C16", "C19"]}, arities=[])
